@@ -21,7 +21,7 @@ import dataiter as di
 from mc import values as V
 from mc.ref.table import T, Rejected
 
-MAX_COLS = 4
+MAX_COLS = 6
 MAX_ROWS = 6
 
 INITS = [
@@ -234,7 +234,9 @@ def adds_column(op, M):
         return 1
     if o == "modify" and not M.has(op["name"]):
         return 1
-    if o in ("cbind", "update", "rbind_partner", "left_join", "inner_join", "full_join", "grouped_modify"):
+    if o in ("rbind_partner", "left_join", "inner_join", "full_join"):
+        return 3  # the partner's three new columns
+    if o in ("cbind", "update", "grouped_modify"):
         return 1
     return 0
 
@@ -264,16 +266,19 @@ def fresh(M, base):
 
 
 def partner(M, d=None):
-    """Two-row partner sharing the first column's name and dtype: rows 1,0 of the state (or fewer) plus a new column z."""
+    """Two-row partner sharing the first column's name and dtype: rows 1,0 of the state (or fewer) plus three new
+    columns z, pw, pa (int, string, float - listed in an order that is neither alphabetical nor reversed)."""
     name = M.names[0]
     c = M.get(name)
     keys = list(reversed(c[:2]))
-    z = fresh(M, "z")
-    P = T([[name, keys], [z, [100 + i for i in range(len(keys))]]])
+    z, w, a = fresh(M, "z"), fresh(M, "pw"), fresh(M, "pa")
+    m = len(keys)
+    P = T([[name, keys], [z, [100 + i for i in range(m)]], [w, ["w" + str(i) for i in range(m)]], [a, [0.5 + i for i in range(m)]]])
     if d is None:
         return None, P
     key = np.array(np.asarray(dict.__getitem__(d, name))[:2][::-1])  # a fresh array of the same dtype
-    p = di.DataFrame({name: key, z: np.array([100 + i for i in range(len(keys))], dtype="int64")})
+    p = di.DataFrame({name: key, z: np.array([100 + i for i in range(m)], dtype="int64"),
+                      w: V.np_array("str", ["w" + str(i) for i in range(m)]), a: np.array([0.5 + i for i in range(m)], dtype="float64")})
     return p, P
 
 
